@@ -32,3 +32,17 @@ def catalogue(tier='quick'):
         L = int(f[0]); h = s[:2 * L]
         if key not in sigs or (len(h), h) < (len(sigs[key]), sigs[key]): sigs[key] = h
     return sorted(set(sigs.values()))
+
+def shift_sweep():
+    """immediate-count shifts and rotates: every group-2 operation (rol ror rcl rcr shl shr sal sar) on a register operand of
+    8 / 16 / 32 bits and shld / shrd, with counts around the masking boundaries (the processor masks the count to 5 bits:
+    0x20, 0x40 ... behave as 0)."""
+    out = []
+    counts = (0, 1, 7, 8, 9, 15, 16, 17, 31, 32, 33, 64, 0x80, 0xe0, 0xff)
+    for c in counts:
+        for ext in range(8):
+            modrm = 0xc0 | (ext << 3) | 3                      # operand ebx / bx / bl
+            out.append('c0%02x%02x' % (modrm, c)); out.append('c1%02x%02x' % (modrm, c)); out.append('66c1%02x%02x' % (modrm, c))
+        for opc in ('0fa4', '0fac'):                            # shld / shrd ebx, eax, imm8
+            out.append('%sc3%02x' % (opc, c)); out.append('66%sc3%02x' % (opc, c))
+    return out
